@@ -20,8 +20,17 @@
 
   User code is a parameter (`Env`): the completer's result stream, the validator's verdict
   and the suggester's answer are arbitrary functions of the `Document` they are called with.
+
+  `cfg.threaded`: the completer is a `ThreadedCompleter`; the stream then is
+  `generator_to_async_generator` (`Ptk.Model.C15Thread`: producer thread, bounded queue, `q.get`
+  jobs, `quitting`), embedded in the tasks `cLoadT` / `cCloseT`; `Act.prod` / `Act.take` are the
+  steps of the other threads.  `ThreadedValidator` / `ThreadedAutoSuggest` are one executor job
+  each — the same await as the asynchronous versions (`vWait` / `sWait`).
+  `St.sel` is `Buffer.selection_state` (part of `Buffer.document`, hence of the staleness
+  comparisons of validator and suggester).
 -/
 import Ptk.Py
+import Ptk.Model.C15Thread
 namespace Ptk.C15
 open Ptk.Py
 
@@ -59,12 +68,20 @@ inductive Task
   | cPend (m : Mode)
   /-- inside `async for completion in async_generator`, `i` completions received so far -/
   | cLoad (m : Mode) (doc : Doc) (i : Nat) (tok : Nat)
+  /-- `ThreadedCompleter`: inside `async for`, the stream is `generator_to_async_generator`
+      with hand-off state `h` (producer thread, queue, `q.get` job) -/
+  | cLoadT (m : Mode) (doc : Doc) (tok : Nat) (h : HS)
+  /-- `ThreadedCompleter`: the loop was left (`break`, end of stream, or `CancelledError` when
+      `cancelled`); `quitting` is set and the coroutine waits in `await runner_f` for the
+      producer thread to return -/
+  | cCloseT (m : Mode) (doc : Doc) (tok : Nat) (h : HS) (cancelled : Bool)
   | vPend
-  /-- inside `await self.validator.validate_async(document)` -/
-  | vWait (doc : Doc)
+  /-- inside `await self.validator.validate_async(document)`; `sel` = the selection that was
+      part of `self.document` when the coroutine read it -/
+  | vWait (doc : Doc) (sel : Option Nat)
   | sPend
   /-- inside `await self.auto_suggest.get_suggestion_async(self, document)` -/
-  | sWait (doc : Doc)
+  | sWait (doc : Doc) (sel : Option Nat)
 deriving DecidableEq, Repr
 
 structure Config where
@@ -81,6 +98,10 @@ structure Config where
   /-- the repaired `async_completer`: the single no-op completion is only dropped while
       nothing is selected (see proposed_fixes/C15-dangling-index.diff) -/
   fixD1 : Bool
+  /-- the completer is a `ThreadedCompleter` -/
+  threaded : Bool := false
+  /-- `buffer_size` of `generator_to_async_generator` (`DEFAULT_BUFFER_SIZE`) -/
+  qcap : Nat := 1000
 deriving DecidableEq, Repr
 
 /-- user code: completer stream, validator verdict (`none` = valid, `some msg` = the
@@ -105,6 +126,10 @@ structure St where
   runV : Bool
   runS : Bool
   nextTok : Nat
+  /-- `Buffer.selection_state`: `none`, or the identity of the `SelectionState` object
+      (`Document.__eq__` compares the selection too, and `SelectionState` has no `__eq__`) -/
+  sel : Option Nat := none
+  nextSel : Nat := 0
 deriving DecidableEq, Repr
 
 def St.doc (s : St) : Doc := ⟨s.text, s.cur⟩
@@ -139,7 +164,7 @@ def CState.goToIndex (st : CState) (idx : Option Nat) : CState :=
 
 /-- `Buffer._text_changed` -/
 def textChanged (cfg : Config) (s : St) : St :=
-  { s with verr := none, vs := .unknown, cs := none, sugg := none,
+  { s with verr := none, vs := .unknown, cs := none, sugg := none, sel := none,
            tasks := if cfg.hasV && cfg.vwt then s.tasks ++ [.vPend] else s.tasks }
 
 /-- `Buffer._cursor_position_changed` -/
@@ -257,7 +282,13 @@ def validateSync (cfg : Config) (env : Env) (s : St) : St :=
 
 /-- `Buffer.reset(Document(t, c))` : no change notification, background tasks keep running -/
 def reset (s : St) (t : Text) (c : Nat) : St :=
-  { s with text := t, cur := c, cs := none, vs := .unknown, verr := none, sugg := none }
+  { s with text := t, cur := c, cs := none, vs := .unknown, verr := none, sugg := none, sel := none }
+
+/-- `Buffer.start_selection()` : a new `SelectionState` object; no change notification -/
+def startSelection (s : St) : St := { s with sel := some s.nextSel, nextSel := s.nextSel + 1 }
+
+/-- `Buffer.exit_selection()` -/
+def exitSelection (s : St) : St := { s with sel := none }
 
 /-! ### completer coroutine -/
 
@@ -335,11 +366,12 @@ def histComplete (cfg : Config) (env : Env) (s : St) : St × Bool :=
 abbrev Seg := St × Option Task
 
 /-- body of `async_completer` up to the first `await` inside the user's completer -/
-def compBegin (s : St) (m : Mode) : Seg :=
+def compBegin (cfg : Config) (env : Env) (s : St) (m : Mode) : Seg :=
   if s.cs.isSome then ({ s with runC := false }, none)
   else
     ({ s with cs := some ⟨s.doc, [], none, s.nextTok⟩, nextTok := s.nextTok + 1 },
-     some (.cLoad m s.doc 0 s.nextTok))
+     some (if cfg.threaded then .cLoadT m s.doc s.nextTok (HS.init (env.comp s.doc).length cfg.qcap)
+           else .cLoad m s.doc 0 s.nextTok))
 
 /-- is the state created by this coroutine run still the buffer's state? (`proceed()`) -/
 def proceed (s : St) (tok : Nat) : Bool :=
@@ -364,9 +396,9 @@ def dropNoop (cfg : Config) (s : St) (doc : Doc) (tok : Nat) : St :=
 def segDone (s : St) : Seg := ({ s with runC := false }, none)
 
 /-- `proceed()` is false: give up, or `raise _Retry` when the text before the cursor only grew -/
-def compElse (s : St) (m : Mode) (doc : Doc) : Seg :=
+def compElse (cfg : Config) (env : Env) (s : St) (m : Mode) (doc : Doc) : Seg :=
   if s.doc.before == doc.before then segDone s
-  else if isPrefixOf' doc.before s.doc.before then compBegin s m   -- raise _Retry
+  else if isPrefixOf' doc.before s.doc.before then compBegin cfg env s m   -- raise _Retry
   else segDone s
 
 /-- `proceed()` is true: `st` is the buffer's state and was created by this run -/
@@ -388,14 +420,14 @@ def compProceed (cfg : Config) (s : St) (st : CState) (m : Mode) (doc : Doc) : S
       else segDone s
 
 /-- dispatch on `proceed()` -/
-def compDispatch (cfg : Config) (s : St) (m : Mode) (doc : Doc) (tok : Nat) : Seg :=
+def compDispatch (cfg : Config) (env : Env) (s : St) (m : Mode) (doc : Doc) (tok : Nat) : Seg :=
   match s.cs with
-  | some st => if st.token == tok then compProceed cfg s st m doc else compElse s m doc
-  | none => compElse s m doc
+  | some st => if st.token == tok then compProceed cfg s st m doc else compElse cfg env s m doc
+  | none => compElse cfg env s m doc
 
 /-- `async_completer` after the `async for` loop -/
-def compPost (cfg : Config) (s : St) (m : Mode) (doc : Doc) (tok : Nat) : Seg :=
-  compDispatch cfg (dropNoop cfg s doc tok) m doc tok
+def compPost (cfg : Config) (env : Env) (s : St) (m : Mode) (doc : Doc) (tok : Nat) : Seg :=
+  compDispatch cfg env (dropNoop cfg s doc tok) m doc tok
 
 /-- `complete_state.completions.append(completion)` (invisible once the state is orphaned) -/
 def appendCompl (s : St) (tok : Nat) (c : Completion) : St :=
@@ -412,20 +444,66 @@ def compsLen (s : St) : Nat :=
 def compResume (cfg : Config) (env : Env) (s : St) (m : Mode) (doc : Doc) (i tok : Nat) : Seg :=
   match (env.comp doc)[i]? with
   | some c =>
-    if !proceed (appendCompl s tok c) tok then compPost cfg (appendCompl s tok c) m doc tok
-    else if compsLen (appendCompl s tok c) ≥ cfg.maxN then compPost cfg (appendCompl s tok c) m doc tok
+    if !proceed (appendCompl s tok c) tok then compPost cfg env (appendCompl s tok c) m doc tok
+    else if compsLen (appendCompl s tok c) ≥ cfg.maxN then compPost cfg env (appendCompl s tok c) m doc tok
     else (appendCompl s tok c, some (.cLoad m doc (i + 1) tok))
-  | none => compPost cfg s m doc tok    -- StopAsyncIteration
+  | none => compPost cfg env s m doc tok    -- StopAsyncIteration
+
+/-! ### completer coroutine over a `ThreadedCompleter`
+
+  The stream is `generator_to_async_generator` (`Ptk.Model.C15Thread`).  The consumer side is
+  cut finer than asyncio cuts it: every `q.get_nowait()` is a step of its own, so that steps
+  of the producer thread (which runs in parallel with the event loop) interleave with them.
+  The coarser real schedules — a whole `get_nowait` loop between two awaits — are sequences of
+  these steps; user actions between them are impossible in reality and harmless here (the
+  invariant is proved for the larger set of interleavings). -/
+
+/-- the body of `async for` for one element received from the queue -/
+def compItemT (cfg : Config) (env : Env) (s : St) (m : Mode) (doc : Doc) (tok : Nat) (h : HS) :
+    QItem → Seg
+  | .done => (s, some (.cCloseT m doc tok (quit h) false))
+  | .item j =>
+    match (env.comp doc)[j]? with
+    | none => (s, some (.cLoadT m doc tok h))
+    | some c =>
+      if !proceed (appendCompl s tok c) tok then
+        (appendCompl s tok c, some (.cCloseT m doc tok (quit h) false))
+      else if compsLen (appendCompl s tok c) ≥ cfg.maxN then
+        (appendCompl s tok c, some (.cCloseT m doc tok (quit h) false))
+      else (appendCompl s tok c, some (.cLoadT m doc tok h))
+
+/-- one consumer step: the result of the `q.get` job is delivered, or `q.get_nowait()`
+    returns an element, or it raises `Empty` and the `q.get` job is submitted -/
+def compStepT (cfg : Config) (env : Env) (s : St) (m : Mode) (doc : Doc) (tok : Nat) (h : HS) : Seg :=
+  match deliver h with
+  | some (x, h') => compItemT cfg env s m doc tok h' x
+  | none =>
+    if h.getter then (s, some (.cLoadT m doc tok h))
+    else
+      match popNow h with
+      | some (x, h') => compItemT cfg env s m doc tok h' x
+      | none => (s, some (.cLoadT m doc tok (submitGet h)))
+
+/-- `await runner_f` returns once the producer thread has returned; then the rest of
+    `async_completer` runs (or, after a cancellation, `CancelledError` propagates and
+    `_only_one_at_a_time` clears the flag) -/
+def compCloseT (cfg : Config) (env : Env) (s : St) (m : Mode) (doc : Doc) (tok : Nat) (h : HS)
+    (cancelled : Bool) : Seg :=
+  if h.pc.isExit then
+    if cancelled then segDone s else compPost cfg env s m doc tok
+  else (s, some (.cCloseT m doc tok h cancelled))
 
 /-! ### validator coroutine -/
 
 /-- top of the `while True` loop of `_validate_async` -/
 def valLoop (s : St) : Seg :=
   if s.vs ≠ .unknown then ({ s with runV := false }, none)
-  else (s, some (.vWait s.doc))
+  else (s, some (.vWait s.doc s.sel))
 
-def valResume (env : Env) (s : St) (doc : Doc) : Seg :=
-  if s.doc ≠ doc then valLoop s
+/-- `if self.document != document: continue` — `Buffer.document` is built from text, cursor
+    position *and* `selection_state` -/
+def valResume (env : Env) (s : St) (doc : Doc) (sel : Option Nat) : Seg :=
+  if s.doc ≠ doc ∨ s.sel ≠ sel then valLoop s
   else
     match env.valid doc with
     | some msg => ({ s with vs := .invalid, verr := some msg, runV := false }, none)
@@ -435,10 +513,10 @@ def valResume (env : Env) (s : St) (doc : Doc) : Seg :=
 
 def sugBegin (s : St) : Seg :=
   if s.sugg.isSome then ({ s with runS := false }, none)
-  else (s, some (.sWait s.doc))
+  else (s, some (.sWait s.doc s.sel))
 
-def sugResume (env : Env) (s : St) (doc : Doc) : Seg :=
-  if s.doc = doc then ({ s with sugg := env.sugg doc, runS := false }, none)
+def sugResume (env : Env) (s : St) (doc : Doc) (sel : Option Nat) : Seg :=
+  if s.doc = doc ∧ s.sel = sel then ({ s with sugg := env.sugg doc, runS := false }, none)
   else sugBegin s       -- raise _Retry
 
 /-! ### scheduler -/
@@ -455,11 +533,11 @@ def dropTask (s : St) (i : Nat) : St := { s with tasks := s.tasks.eraseIdx i }
 
 /-- first step of a pending task: the `running` check of `_only_one_at_a_time`, then the
     coroutine body up to its first await -/
-def startTask (s : St) (i : Nat) : St :=
+def startTask (cfg : Config) (env : Env) (s : St) (i : Nat) : St :=
   match s.tasks[i]? with
   | some (.cPend m) =>
     if s.runC then dropTask s i
-    else finishSeg (compBegin { dropTask s i with runC := true } m)
+    else finishSeg (compBegin cfg env { dropTask s i with runC := true } m)
   | some .vPend =>
     if s.runV then dropTask s i
     else finishSeg (valLoop { dropTask s i with runV := true })
@@ -471,8 +549,10 @@ def startTask (s : St) (i : Nat) : St :=
 def resumeTask (cfg : Config) (env : Env) (s : St) (i : Nat) : St :=
   match s.tasks[i]? with
   | some (.cLoad m doc k tok) => finishSeg (compResume cfg env (dropTask s i) m doc k tok)
-  | some (.vWait doc) => finishSeg (valResume env (dropTask s i) doc)
-  | some (.sWait doc) => finishSeg (sugResume env (dropTask s i) doc)
+  | some (.cLoadT m doc tok h) => finishSeg (compStepT cfg env (dropTask s i) m doc tok h)
+  | some (.cCloseT m doc tok h c) => finishSeg (compCloseT cfg env (dropTask s i) m doc tok h c)
+  | some (.vWait doc sel) => finishSeg (valResume env (dropTask s i) doc sel)
+  | some (.sWait doc sel) => finishSeg (sugResume env (dropTask s i) doc sel)
   | _ => s
 
 /-- The asyncio task is cancelled (the Application exits): `CancelledError` is raised at the
@@ -480,8 +560,14 @@ def resumeTask (cfg : Config) (env : Env) (s : St) (i : Nat) : St :=
     taken its first step is just dropped (its body never runs). -/
 def killFlags (s : St) : Task → St
   | .cLoad .. => { s with runC := false }
-  | .vWait _ => { s with runV := false }
-  | .sWait _ => { s with runS := false }
+  /- `CancelledError` at the await of the `q.get` job: the `finally` of
+     `generator_to_async_generator` sets `quitting` and awaits `runner_f` — the coroutine is
+     not finished, the flag stays set until the producer thread has returned -/
+  | .cLoadT m doc tok h => { s with tasks := .cCloseT m doc tok (quit h) true :: s.tasks }
+  /- `CancelledError` at `await runner_f`: the coroutine ends, the thread is left to itself -/
+  | .cCloseT .. => { s with runC := false }
+  | .vWait _ _ => { s with runV := false }
+  | .sWait _ _ => { s with runS := false }
   | .cPend _ => s
   | .vPend => s
   | .sPend => s
@@ -490,6 +576,28 @@ def cancelTask (s : St) (i : Nat) : St :=
   match s.tasks[i]? with
   | some t => killFlags (dropTask s i) t
   | none => s
+
+/-- one step of the producer thread of the threaded completer task `i` -/
+def prodTask (s : St) (i : Nat) : St :=
+  match s.tasks[i]? with
+  | some (.cLoadT m doc tok h) => { s with tasks := s.tasks.set i (.cLoadT m doc tok (prodStep h)) }
+  | some (.cCloseT m doc tok h c) => { s with tasks := s.tasks.set i (.cCloseT m doc tok (prodStep h) c) }
+  | _ => s
+
+/-- the blocking `q.get` job of the threaded completer task `i` returns -/
+def takeTask (s : St) (i : Nat) : St :=
+  match s.tasks[i]? with
+  | some (.cLoadT m doc tok h) => { s with tasks := s.tasks.set i (.cLoadT m doc tok (take h)) }
+  | some (.cCloseT m doc tok h c) => { s with tasks := s.tasks.set i (.cCloseT m doc tok (take h) c) }
+  | _ => s
+
+/-- what `AppendAutoSuggestion.apply_transformation` (layout/processors.py) appends to the last
+    line: `buffer.suggestion.text` if there is a suggestion and the cursor is at the end of the
+    document, else nothing -/
+def shownSuggestion (s : St) : Text :=
+  match s.sugg with
+  | some t => if s.cur = s.text.length then t else []
+  | none => []
 
 /-! ### the transition system -/
 
@@ -511,6 +619,10 @@ inductive Act
   | start (i : Nat)
   | resume (i : Nat)
   | kill (i : Nat)
+  | prod (i : Nat)
+  | take (i : Nat)
+  | startSel
+  | exitSel
 deriving Repr
 
 /-- one step; the flag reports an exception escaping from a user-level call -/
@@ -529,9 +641,13 @@ def step (cfg : Config) (env : Env) (s : St) : Act → St × Bool
   | .validateSync => (validateSync cfg env s, false)
   | .reset t c => (reset s t (min c t.length), false)
   | .histComplete => histComplete cfg env s
-  | .start i => (startTask s i, false)
+  | .start i => (startTask cfg env s i, false)
   | .resume i => (resumeTask cfg env s i, false)
   | .kill i => (cancelTask s i, false)
+  | .prod i => (prodTask s i, false)
+  | .take i => (takeTask s i, false)
+  | .startSel => (startSelection s, false)
+  | .exitSel => (exitSelection s, false)
 
 def run (cfg : Config) (env : Env) (s : St) (as : List Act) : St :=
   as.foldl (fun s a => (step cfg env s a).1) s
